@@ -10,15 +10,7 @@ NOTE_COMMON = ("Trusted: Coq 8.16.1 kernel (no axioms under the property theorem
                "ExtrOcamlBasic extraction + hand-written OCaml driver, the Rust correspondence harness and Python generators/oracles. "
                "Third-party behaviour (serde_json, tokio, hyper, soketto) is modelled and validated differentially, not verified.")
 
-CHECKS = {
-    "C15": dict(
-        text=("Coq theorems over the wire-type model (Model/Wire.v) and over the error-code table regenerated from types/src/error.rs on every run: "
-              "code->kind->code for every integer, kind->code->kind for every canonical kind, parse(ser x)=x for ids, subscription ids, error objects, "
-              "requests, notifications and responses, response acceptance characterised.  Tie to the code: translator + all 2^32 codes through the "
-              "compiled ErrorCode, and a differential run of the extracted model against the real serde impls on generated/mutated/exhaustive texts."),
-        design="5/C15", engine="wire",
-        technique="Coq proof over translated table + hand model; extracted-model vs implementation differential"),
-}
+CHECKS = json.load(open(os.path.join(ROOT, "tools", "checks.json")))
 
 REASON_PENDING = "check not built yet in this session (planned, see DESIGN.md section 9); nothing is claimed for it"
 
